@@ -183,6 +183,20 @@ fn directed_shapes(which: usize, m: usize) -> Vec<Shape> {
 /// only, answers "left neighbor consumed our entire range" (relink), and the left worker re-sends its request to the third
 /// worker; the second merge happens inside the range the THIRD worker granted
 const SWEEP: usize = 32;
+/// the tail-merge family: k = 1 … 4 for each size variant
+const TAIL: usize = 8;
+const TINY: i64 = -1000;
+fn tail_params(v: usize) -> (i64, i64, usize) {
+    if std::env::var("VH_XR_TAIL").is_err() {
+        // 0: tiny tail nodes; 1: one overflow with an under-full rest (the window found by the scan), then plain merges
+        return if v == 0 { (TINY, 0, 16) } else { (5, -1, 16) };
+    }
+    // (c, aoff, plen): scanned with VH_XR_TAIL=<4 * variants>
+    let c = (v % 12) as i64;
+    let aoff = -(((v / 12) % 3) as i64);
+    let plen = [16usize, 8, 12, 20, 24, 28][(v / 36) % 6];
+    (c, aoff, plen)
+}
 fn sweep_sizes(cap: usize, half: usize, d: usize) -> Vec<usize> {
     if d < 16 {
         vec![cap - 5, half + 5, half + 20, half + 10, half + 10, half + 10]
@@ -353,6 +367,61 @@ fn gen_branch(r: &mut Rng, next_id: &mut usize, pn: &mut u32, out: &mut Sink, di
         changes.push((level[0].view.items[0].0, Some(*pn)));
     }
     Some(BScenario { level, changes, desc: format!("branch level sizes {:?} shapes {:?} plen {plen}", sizes, shapes) })
+}
+
+/// directed family "tail merges" (the geometry of the seeded change `C13-extend-range-high-max`): node 0 keeps an under-full
+/// rest, node 1 — the first node of the LAST worker — is emptied, behind it `k` untouched nodes sized so that `rest + node`
+/// overflows one node and leaves an under-full rest again (k successive merges past the right neighbour's exhausted range),
+/// then one more untouched node.  `c`, `aoff` move the sizes across the narrow window in which the split leaves an
+/// under-full remainder.
+fn gen_branch_tail(r: &mut Rng, next_id: &mut usize, pn: &mut u32, out: &mut Sink, k: usize, c: i64, aoff: i64, plen: usize) -> Option<BScenario> {
+    let p = r.bytes32();
+    let probe: Vec<(Key, u32)> = (0..64).map(|i| (branch_key(&p, plen, 1, i * 4), 1)).collect();
+    let probe_body = catch_unwind(AssertUnwindSafe(|| bu::make_node(&probe, 64, prefix_len(&probe[0].0, &probe[63].0), 1).view().body_size)).ok()?;
+    let cap = (bu::BRANCH_NODE_BODY_SIZE - 48) * 64 / probe_body;
+    let half = bu::BRANCH_MERGE_THRESHOLD * 64 / probe_body + 2;
+    // `c = TINY`: the tail nodes are tiny (such levels arise: a hand-over can leave an under-full non-rightmost node), every
+    // merge stays under-full until the last node — k + 1 successive merges without a split
+    let tiny = c == TINY;
+    let a = if tiny { 10 } else { (half as i64 - 3 - aoff) as usize };
+    let n_u = if tiny { 15 } else { ((cap as i64 + c) as usize).saturating_sub(a) };
+    let mut sizes = vec![cap - 5, half + 5];
+    for _ in 0..k {
+        sizes.push(n_u);
+    }
+    sizes.push(half + 5);
+    let mut level = Vec::new();
+    for (j, &n) in sizes.iter().enumerate() {
+        let keys: Vec<Key> = (0..n).map(|i| branch_key(&p, plen, j, i * 4)).collect();
+        let pl = prefix_len(&keys[0], &keys[n - 1]);
+        let items: Vec<(Key, u32)> = keys.iter().map(|k| {
+            *pn += 1;
+            (*k, *pn)
+        }).collect();
+        *pn += 1;
+        let bbn = *pn;
+        let h = catch_unwind(AssertUnwindSafe(|| bu::make_node(&items, n, pl, bbn))).ok()?;
+        let view = catch_unwind(AssertUnwindSafe(|| h.view())).ok()?;
+        if view.body_size > bu::BRANCH_NODE_BODY_SIZE {
+            out.count("harness_node_overfull_skipped");
+            return None;
+        }
+        let id = *next_id;
+        *next_id += 1;
+        out.line(
+            format!("node {} {} {} {} {}", id, view.bbn_pn, view.prefix_len, view.prefix_compressed, items_str(&view.items)),
+            format!("ok body={}", view.body_size),
+        );
+        level.push(BNode { id, handle: h, view });
+    }
+    let mut changes: Vec<(Key, Option<u32>)> = Vec::new();
+    for it in &level[0].view.items[a..] {
+        changes.push((it.0, None));
+    }
+    for it in &level[1].view.items {
+        changes.push((it.0, None));
+    }
+    Some(BScenario { level, changes, desc: format!("branch tail merges k={k} c={c} aoff={aoff} plen={plen} sizes {:?}", sizes) })
 }
 
 struct BRes {
@@ -658,6 +727,43 @@ fn gen_leaf(r: &mut Rng, next_id: &mut usize, pn: &mut u32, out: &mut Sink, dire
     LScenario { leaves, changes, fanout, desc: format!("leaf level sizes {:?} value size {vsize} shapes {:?} fanout {fanout}", sizes, shapes) }
 }
 
+/// the leaf twin of `gen_branch_tail`: the value sizes of the red team's demo — the rest `[900, 900]` (1868 bytes) plus a leaf
+/// `[1300, 1100, 700]` is one full leaf `[900, 900, 1300]` and the under-full rest `[1100, 700]` (1868 bytes) again
+fn gen_leaf_tail(r: &mut Rng, next_id: &mut usize, pn: &mut u32, out: &mut Sink, k: usize) -> LScenario {
+    let mut p = r.bytes32();
+    p[0] = 0x40 | (p[0] & 0x3f);
+    let mut shapes: Vec<Vec<usize>> = vec![vec![900, 900, 900, 900], vec![1100, 1000, 1000]];
+    for _ in 0..k {
+        shapes.push(vec![1300, 1100, 700]);
+    }
+    shapes.push(vec![1000, 1000]);
+    let mut leaves = Vec::new();
+    for (j, vs) in shapes.iter().enumerate() {
+        let entries: Vec<lu::Entry> = vs
+            .iter()
+            .enumerate()
+            .map(|(i, len)| {
+                let mut v = vec![j as u8; *len];
+                v[0] = i as u8;
+                (leaf_key(&p, j, i * 4), v, false)
+            })
+            .collect();
+        *pn += 1;
+        let sep = if j == 0 { [0u8; 32] } else { entries[0].0 };
+        let id = *next_id;
+        *next_id += 1;
+        out.line(format!("lleaf {} {} {} {}", id, hex(&sep), *pn, lentries_str(&entries)), "ok".into());
+        leaves.push(LLeaf { id, sep, pn: *pn, entries });
+    }
+    let mut changes: Vec<(Key, Option<Vec<u8>>)> = Vec::new();
+    changes.push((leaves[0].entries[2].0, None));
+    changes.push((leaves[0].entries[3].0, None));
+    for e in &leaves[1].entries {
+        changes.push((e.0, None));
+    }
+    LScenario { leaves, changes, fanout: 16, desc: format!("leaf tail merges k={k}") }
+}
+
 fn run_leaf(ctx: &mut Ctx, sc: &LScenario, workers: usize, case: usize, out: &mut Sink) -> Option<Vec<(Key, Vec<u8>)>> {
     let ids = sc.leaves.iter().map(|l| l.id.to_string()).collect::<Vec<_>>().join(",");
     let keys: Vec<Key> = sc.changes.iter().map(|c| c.0).collect();
@@ -820,7 +926,8 @@ pub fn run(seed: u64, cases: usize, out: &mut Sink) {
     let mut next_leaf = 0usize;
     let mut pn = 1000u32;
     let only: Option<usize> = std::env::var("VH_XR_ONLY").ok().and_then(|s| s.parse().ok());
-    let ndirected = 8usize + SWEEP;
+    let ntail: usize = std::env::var("VH_XR_TAIL").ok().and_then(|s| s.parse().ok()).unwrap_or(TAIL);
+    let ndirected = 8usize + SWEEP + ntail;
     for case in 0..cases + ndirected {
         let mut r = rng.fork();
         if let Some(o) = only {
@@ -830,8 +937,16 @@ pub fn run(seed: u64, cases: usize, out: &mut Sink) {
         }
         let directed = if case < ndirected { Some(case) } else { None };
         let wcs = worker_counts(&mut r);
+        let tail = directed.filter(|d| *d >= 8 + SWEEP).map(|d| d - 8 - SWEEP);
         // branch stage
-        if let Some(sc) = gen_branch(&mut r, &mut next_node, &mut pn, out, directed) {
+        let bsc = match tail {
+            Some(t) => {
+                let (c, aoff, plen) = tail_params(t / 4);
+                gen_branch_tail(&mut r, &mut next_node, &mut pn, out, t % 4 + 1, c, aoff, plen)
+            }
+            None => gen_branch(&mut r, &mut next_node, &mut pn, out, directed),
+        };
+        if let Some(sc) = bsc {
             out.mark_case(format!("case {case} branch: {}", sc.desc));
             let mut reference: Option<Vec<(Key, u32)>> = None;
             for &w in &wcs {
@@ -848,7 +963,11 @@ pub fn run(seed: u64, cases: usize, out: &mut Sink) {
             }
         }
         // leaf stage
-        let sc = gen_leaf(&mut r, &mut next_leaf, &mut pn, out, directed);
+        let sc = match tail {
+            Some(t) if t < 4 => gen_leaf_tail(&mut r, &mut next_leaf, &mut pn, out, t % 4 + 1),
+            Some(_) => continue,
+            None => gen_leaf(&mut r, &mut next_leaf, &mut pn, out, directed),
+        };
         out.mark_case(format!("case {case} leaf: {}", sc.desc));
         let mut reference: Option<Vec<(Key, Vec<u8>)>> = None;
         for &w in &wcs {
